@@ -25,6 +25,7 @@ for sid in ids:
         subprocess.run([os.path.join(HERE, "check"), prop, "quick"], capture_output=True, text=True, cwd=HERE, env=dict(os.environ, VERIF_HARVEST=tmp))
     finally:
         subprocess.run(["git", "-C", "/repo", "checkout", "--", "."], check=True)
+        subprocess.run(["git", "-C", "/repo", "clean", "-fdq", "src"], check=True)
         if os.path.exists(keep):
             shutil.move(keep, os.path.join(evd, prop + ".json"))
     got = [json.loads(l) for l in open(tmp)] if os.path.exists(tmp) else []
